@@ -25,4 +25,28 @@ print(' '.join(m.get('matrix_checks') or [m['property'].split()[0]]))")
     echo "| $n | $chk | $hit | \`$(echo $line | cut -c1-140)\` |" >> $OUT.tmp
   done
 done
+# rows of seeded changes that were not re-run this time are kept from the previous matrix
+if [ $# -gt 0 ] && [ -f $OUT ]; then
+  python3 - "$OUT" "$OUT.tmp" <<'PY'
+import sys
+old, new = sys.argv[1], sys.argv[2]
+def rows(p):
+    d = {}
+    for l in open(p):
+        if l.startswith('| C'):
+            k = tuple(x.strip() for x in l.split('|')[1:3])
+            d[k] = l
+    return d
+o, n = rows(old), rows(new)
+o.update(n)
+def key(k):
+    name = k[0]
+    base, _, gen = name.partition('-')
+    return (base, int(gen or 1), k[1])
+with open(new, 'w') as f:
+    f.write('| seeded change | check | detected at VERIF_SEED | result line |\n|---|---|---|---|\n')
+    for k in sorted(o, key=key):
+        f.write(o[k])
+PY
+fi
 mv $OUT.tmp $OUT
